@@ -244,7 +244,7 @@ func init() {
 		ID:    "C03",
 		Title: "Each response is delimited by exactly one final DONE and fully drained",
 		Pkgs:  []string{"./tds"},
-		Funcs: []string{`^\(\*tds\.Channel\)\.(tryParsePackage|WritePacket|NextPackage|NextPackageUntil)$`, `^tds\.isDoneFinal$`},
+		Funcs: []string{`^\(\*tds\.Channel\)\.(tryParsePackage|WritePacket|NextPackage|NextPackageUntil|NextPackageUntil\$1)$`, `^tds\.isDoneFinal$`},
 		Assumptions: []string{
 			"the values received from Channel.packageCh satisfy the channel invariant checked at every send in tryParsePackage / WritePacket (the link between sends and receives of one channel is assumed, goroutines are not modelled)",
 			"the consumer's callback passed to NextPackageUntil does not reach unexported library state",
@@ -252,7 +252,8 @@ func init() {
 		},
 		Notes: []string{
 			"proved (unbounded): tryParsePackage hands the consumer only completely parsed packages or the synthetic final DONE, and creates the synthetic DONE only when the receive queue is at the end of a message that carried the end-of-message flag and the last delivered package was not already a final DONE (so a response gets at most one final DONE from the library and none in the middle of a message); isDoneFinal is exactly 'DONE with status 0'; NextPackage / NextPackageUntil record every delivered package in the reply script and return the last delivered package",
-			"not mechanised: that NextPackageUntil drains the rest of the response after a callback error (the recursion goes through closures whose acceptance condition the contracts cannot name), exactly-once delivery across requests, and the behaviour of stale lastPkgRx across Reset (whole-history statements)",
+			"proved (unbounded, every reply history): NextPackageUntil drains the response — with a nil callback, and after a callback error other than io.EOF, the last package NextPackage handed out is a DONE with final status unless a receive itself failed ($lastFinal || $rxfail; the library's own drain filter, the function literal NextPackageUntil$1, is verified to accept exactly a final DONE and named in the contract through fnis)",
+			"not mechanised: exactly-once delivery across requests, and the behaviour of stale lastPkgRx across Reset (whole-history statements)",
 		},
 	}
 	properties["C08"] = &Property{
@@ -386,13 +387,14 @@ func init() {
 		ID:    "C13",
 		Title: "Cancelled or closed channels never block and never deliver",
 		Pkgs:  []string{"./tds"},
-		Funcs: []string{`^\(\*tds\.Channel\)\.(NextPackage|QueuePackage|SendRemainingPackets|SendPackage|WritePacket|Close|Reset)$`, `^\(\*tds\.Conn\)\.Close$`},
+		Funcs: []string{`^\(\*tds\.Channel\)\.(NextPackage|NextPackageUntil|QueuePackage|SendRemainingPackets|SendPackage|WritePacket|Close|Reset)$`, `^\(\*tds\.Conn\)\.Close$`},
 		Assumptions: []string{
 			"SEQUENTIAL ONLY: goroutines, blocking, time and context cancellation are not modelled (a select is an arbitrary choice among its cases); the never-blocks / returns-promptly / bounded-time clauses of the property are not decided",
 			"sync.RWMutex is modelled as a no-op; the recursive read lock in SendRemainingPackets -> Reset and sends on the package channel under the read lock are outside what the contracts express",
 		},
 		Notes: []string{
 			"proved (sequential, unbounded): on a closed channel NextPackage, QueuePackage, SendRemainingPackets and SendPackage return an error matching ErrChannelClosed, deliver no package and leave the wire and the transmit queue untouched; WritePacket puts nothing on the package channel of a closed channel; Close marks the channel closed and closes the package channel exactly once (a second Close reports ErrChannelClosed); Conn.Close closes the transport on every path, whatever the state of the connection context (its per-channel obligations, which need facts about the pointers stored in the channel map, are unclaimed)",
+			"proved (sequential, unbounded): every receive NextPackageUntil performs — the drains after a callback error and with a nil callback included — waits on the context the caller passed ($waitctx ghost recorded by NextPackage's contract), so cancelling the caller's context reaches a call that is draining an abandoned response",
 			"not decided: promptness after cancellation, that a send with a cancelled context writes nothing (needs the link between a context's Done channel and its Err, not modelled), bounded-time Close, that Conn.Close also closes every channel and ends the reader",
 		},
 	}
